@@ -338,10 +338,14 @@ def excludes(src: str, det: str, how: Tuple[str, Optional[int]], cache: Dict[Any
         return False
     dim = MemberDim(field, how, dangerous)
     res = True
-    for v in dangerous:
-        _, acc = solver.solve(v, dim)  # type: ignore
-        if acc:
-            res = False
+    abstract.CONST_FREE[0] = True  # upper reading: constant-only conditions go either way
+    try:
+        for v in dangerous:
+            _, acc = solver.solve(v, dim)  # type: ignore
+            if acc:
+                res = False
+    finally:
+        abstract.CONST_FREE[0] = False
     cache[key] = res
     return res
 
